@@ -96,13 +96,16 @@ def gens(*names):
     return [GEN[n] for n in names]
 
 PLAN = {
-    'C01': {'mc': mcs('fub', 'fub_b1', 'fu', 'mb', 'mu', 'bu', 'ja', thorough=('fub_c3', 'fu4')),
+    'C01': {'extra': ['threads_engine'],
+            'mc': mcs('fub', 'fub_b1', 'fu', 'mb', 'mu', 'bu', 'ja', thorough=('fub_c3', 'fu4')),
             'gen': gens('fub', 'fu', 'mb', 'mu', 'bu'),
             'random': suite(COLL_KINDS + MERGE_KINDS, 200, 2000, 20, 200, profiles=('budget',)) + suite(ADAPT_KINDS + JOIN_KINDS, 150, 1500, 10, 100)},
     'C02': {'mc': mcs('fub', 'fub_b1', 'fub_init', 'fob', 'fo', 'fu', thorough=('fub_c3', 'fu4')),
             'gen': gens('fub', 'fub_init', 'fu', 'fob', 'fo'),
             'random': suite(COLL_KINDS)},
-    'C04': {'mc': mcs('fob', 'fo', 'bo', 'tbo', 'ja', 'tja'),
+    'C03': {'mc': [], 'gen': [], 'random': [], 'extra': ['refcount_engine'], 'trace_spec': ('TraceRc.tla', 'TraceRc.cfg')},
+    'C04': {'extra': ['ordered_engine'],
+            'mc': mcs('fob', 'fo', 'bo', 'tbo', 'ja', 'tja'),
             'gen': gens('fob', 'fo', 'bo', 'tbo', 'ja'),
             'random': suite(['fob', 'fo'], 400, 4000, 40, 400) + suite(['bo', 'tbo', 'ja', 'tja'], 200, 2000, 15, 150)},
     'C05': {'mc': mcs('fub', 'fub_init', 'mb', 'mu', 'ja'),
